@@ -234,7 +234,7 @@ pub fn c16(cx: &Ctx) -> (Vec<Violation>, Cover) {
         .collect();
     // the single system is never despawned or duplicated
     for i in wr_ew.iter().copied() {
-        for p in 0..a.end_pos {
+        for p in a.insts[i].created_pos..a.end_pos {
             if let Some(f) = a.facts_at(p) {
                 if !f.sys_alive(i) {
                     v.push(Violation::new("C16", "C16/world-reactor-despawned", format!("world reactor instance {i} does not exist at {p}"), p));
